@@ -17,7 +17,8 @@ V = os.path.dirname(os.path.dirname(os.path.abspath(__file__)))
 pid, wt = sys.argv[1], sys.argv[2]
 tried = sys.argv[3] if len(sys.argv) > 3 else ""
 p = next(json.loads(l) for l in open(os.path.join(V, "properties.jsonl")) if l.strip() and json.loads(l)["id"] == pid)
-prop = "%s — %s\n\n%s\n\nQuantifier: %s\n" % (p["id"], p["title"], p["statement"], p["quantifier"])
+q = p["quantifier"]
+prop = "%s — %s\n\n%s\n\nQuantifier: %s\n" % (p["id"], p["title"], p["statement"], q.get("text", q) if isinstance(q, dict) else q)
 print(f"""You are testing how good a verification effort is by writing a realistic BUG. Work ONLY inside the git worktree {wt} (a checkout of the Rust crate `gdsl`, a graph data-structure library: four flavours `digraph`, `sync_digraph`, `ungraph`, `sync_ungraph` that are textual copies of each other under src/). Do not read or write anything under /repo or /verif. There is no network; use `cargo ... --offline` only.
 
 The library is supposed to satisfy this property:
